@@ -222,6 +222,81 @@ example :
     check colorDefs 5 (.collReferenced ['t', 'S'] none) (.list [.str ['a'], .str ['b']]) =
       .list [.str ['a'], .str ['b']] := by decide
 
+/-! ## the order of the item definitions in the document
+
+`ItemDefinitionEvaluator::build` and `ItemDefinitionTypeEvaluator::build` walk the item definitions in document
+order and `insert` one closure per definition into a `HashMap` keyed by the definition's name; a reference is
+resolved when a value is checked (`evaluators.get(type_ref)`), never while the map is filled.  So a definition
+may refer to one that comes later, through any chain of references, and the arrangement of the definitions is
+immaterial — as long as no two definitions share a name, for then the later one replaces the earlier. -/
+
+/-- The map the loop of inserts builds is the last-wins search `lookup` the model resolves names with. -/
+theorem registry_lookup (defs : Defs) (n : Name) : registry defs n = lookup defs n := by
+  simp only [registry, registry_foldl, Registry.empty]
+  cases lookup defs n <;> rfl
+
+/-- **Resolution is independent of the order of the item definitions.**  For two arrangements of one set of
+definitions with pairwise distinct names: the registries are equal, every check of a value against an item
+definition (input side), every typed input variable, the FEEL type of every definition and every coerced result
+(output side), and the specification (`Spec.project`, `Spec.conforms`) are equal — for every fuel, every
+definition tree, every value. -/
+theorem resolution_order_independent {defs defs' : Defs} (hp : defs.Perm defs')
+    (hnd : (defs.map Prod.fst).Nodup) (fuel : Nat) :
+    (∀ n, registry defs' n = registry defs n) ∧
+    (∀ t v, check defs' fuel t v = check defs fuel t v) ∧
+    (∀ name ty input, varCheck defs' fuel name ty input = varCheck defs fuel name ty input) ∧
+    (∀ n, typeName defs' fuel n = typeName defs fuel n) ∧
+    (∀ ty v, coerceOutput defs' fuel ty v = coerceOutput defs fuel ty v) ∧
+    (∀ t v, Spec.project defs' fuel t v = Spec.project defs fuel t v) ∧
+    (∀ t v, Spec.conforms defs' fuel t v = Spec.conforms defs fuel t v) := by
+  have hl : ∀ n, lookup defs' n = lookup defs n := lookup_perm hp hnd
+  have he : ∀ f, evaluator defs' f = evaluator defs f := by
+    intro f
+    induction f with
+    | zero => funext n; simp [evaluator]
+    | succ f ih => funext n; simp only [evaluator, hl, ih]
+  have ht : ∀ f, typeName defs' f = typeName defs f := by
+    intro f
+    induction f with
+    | zero => funext n; simp [typeName]
+    | succ f ih => funext n; simp only [typeName, hl, ih]
+  have hc : ∀ f, conformsName defs' f = conformsName defs f := by
+    intro f
+    induction f with
+    | zero => funext n; simp [conformsName]
+    | succ f ih => funext n; simp only [conformsName, hl, ih]
+  have hj : ∀ f, projector defs' f = projector defs f := by
+    intro f
+    induction f with
+    | zero => funext n; simp [projector]
+    | succ f ih => funext n; simp only [projector, hl, ih]
+  refine ⟨fun n => by rw [registry_lookup, registry_lookup, hl], fun t v => by simp only [check, he],
+    fun name ty input => by simp only [varCheck, eval, he], fun n => by rw [ht],
+    fun ty v => ?_, fun t v => by simp only [Spec.project, hj], fun t v => by simp only [Spec.conforms, hc]⟩
+  cases ty <;> simp only [coerceOutput, varFType, ht]
+
+/-- Non-vacuity: the three-level example with its two definitions exchanged (the component `n` of `tP` then
+refers to a definition that comes later in the document). -/
+example : exDefs.Perm exDefs.reverse ∧ (exDefs.map Prod.fst).Nodup ∧
+    check exDefs.reverse 5 (.referenced ['t', 'P'] none) (.list [.ctx [(['n'], .num 2), (['s'], .list [.str ['x']])]]) =
+      .list [.ctx [(['n'], .num 2), (['s'], .list [.str ['x']])]] ∧
+    check exDefs.reverse 5 (.referenced ['t', 'P'] none) (.list [.ctx [(['n'], .num 3), (['s'], .list [])]]) =
+      .list [.ctx [(['n'], .null), (['s'], .list [])]] := by
+  refine ⟨(List.reverse_perm exDefs).symm, by decide, by decide, by decide⟩
+
+/-- Two definitions of one name, a number and a string: the later one is the one that is used. -/
+def dupDefs : Defs := [(['t'], .simple .number none), (['t'], .simple .string none)]
+
+/-- The hypothesis "one definition per name" of `resolution_order_independent` cannot be dropped: with two
+definitions of one name the arrangement decides which of them a reference means (`HashMap::insert` replaces) —
+the number 1 is null for one arrangement and passes for the other, and so for the type of a result. -/
+theorem resolution_order_counterexample :
+    dupDefs.Perm dupDefs.reverse ∧
+    varCheck dupDefs 5 ['x'] (.named ['t']) (.ctx [(['x'], .num 1)]) = .null ∧
+    varCheck dupDefs.reverse 5 ['x'] (.named ['t']) (.ctx [(['x'], .num 1)]) = .num 1 ∧
+    typeName dupDefs 5 ['t'] = some .string ∧ typeName dupDefs.reverse 5 ['t'] = some .number := by
+  refine ⟨(List.reverse_perm dupDefs).symm, by decide, by decide, rfl, rfl⟩
+
 /-! ## the type reference of a variable (repairs of the findings F60-typeref-white-space, F61-any-typed-input) -/
 
 /-- White space around the `typeRef` of a variable is not a part of the type name: the closure
